@@ -71,6 +71,7 @@ const OP_NAMES: &[&str] = &[
 	"validate_inputs",
 	"waiting_at_barrier",
 	"setup",
+	"main_waiting_for_threads",
 ];
 const OP_IDLE: u64 = 0;
 const OP_BLOCK: u64 = 1;
@@ -94,6 +95,7 @@ const OP_HEADER_FOR_OUTPUT: u64 = 18;
 const OP_VALIDATE_INPUTS: u64 = 19;
 const OP_BARRIER: u64 = 20;
 const OP_SETUP: u64 = 21;
+const OP_JOINING: u64 = 22;
 
 fn tick(slot: usize, op: u64) {
 	CUR_OP[slot].store(op, Ordering::SeqCst);
@@ -135,7 +137,7 @@ fn monitor(run: &Run, hang_s: u64, use_gdb: bool, is_worker: bool) {
 		let mut ops: Vec<String> = vec![];
 		for s in 0..MAX_SLOTS {
 			let op = CUR_OP[s].load(Ordering::SeqCst);
-			if op != OP_IDLE && op != OP_FINISHED {
+			if op != OP_IDLE && op != OP_FINISHED && op != OP_JOINING {
 				ops.push(op_name(op).to_string());
 			}
 		}
@@ -146,23 +148,39 @@ fn monitor(run: &Run, hang_s: u64, use_gdb: bool, is_worker: bool) {
 			let rdir = vcommon::ctx::verif_root().join("replay").join("C17");
 			let _ = std::fs::create_dir_all(&rdir);
 			let path = rdir.join(format!("hang-seed{}-{}-k{}-rep{}-pid{}.txt", run.seed, if long { "long" } else { "short" }, k, rep, std::process::id()));
-			let out = std::process::Command::new("gdb")
-				.arg("-p")
-				.arg(std::process::id().to_string())
-				.arg("-batch")
-				.arg("-ex")
-				.arg("thread apply all bt")
-				.stdin(std::process::Stdio::null())
-				.output();
-			match out {
-				Ok(o) => {
-					let mut txt = String::from_utf8_lossy(&o.stdout).to_string();
-					txt.push_str("\n---- stderr ----\n");
-					txt.push_str(&String::from_utf8_lossy(&o.stderr));
+			// gdb stops every thread of this process (this one included) while it works: its output must go
+			// to a file, never to a pipe this process would have to drain; `timeout` bounds a wedged gdb
+			let outf = std::fs::File::create(&path);
+			let st = match outf {
+				Ok(f) => {
+					let f2 = f.try_clone();
+					let mut c = std::process::Command::new("timeout");
+					c.arg("120")
+						.arg("gdb")
+						.arg("-p")
+						.arg(std::process::id().to_string())
+						.arg("-batch")
+						.arg("-ex")
+						.arg("thread apply all bt")
+						.stdin(std::process::Stdio::null())
+						.stdout(f);
+					if let Ok(f2) = f2 {
+						c.stderr(f2);
+					}
+					c.status().map_err(|e| e.to_string())
+				}
+				Err(e) => Err(e.to_string()),
+			};
+			match st {
+				Ok(status) => {
+					let txt = std::fs::read_to_string(&path).unwrap_or_default();
 					let has_bt = txt.contains("Thread ") && txt.contains("#0");
-					let _ = std::fs::write(&path, &txt);
 					gdb_file = path.to_string_lossy().to_string();
-					gdb_note = if has_bt { "backtraces written".to_string() } else { "gdb ran but produced no backtraces (ptrace restrictions?)".to_string() };
+					gdb_note = if has_bt {
+						"backtraces written".to_string()
+					} else {
+						format!("gdb ended with {:?} without backtraces (ptrace restrictions?)", status.code())
+					};
 				}
 				Err(e) => gdb_note = format!("gdb could not be started: {}", e),
 			}
@@ -1429,6 +1447,7 @@ fn execute_run(run: &Run, w: &WorldData, rc: &RunCfg, sc: &Scratch, san: bool) -
 	let sched_before = verif_hooks::sched_stats();
 	verif_hooks::sched_arm(rc.sched_seed | 1);
 	let t_conc = Instant::now();
+	tick(0, OP_JOINING);
 	std::thread::scope(|s| {
 		for (j, plan) in plans.plans.iter().enumerate() {
 			let ctx = &ctx;
@@ -1868,11 +1887,12 @@ fn main() {
 		run.finish();
 	}
 
-	let n_short: u64 = run.tier.pick(48, 880);
-	let n_long: u64 = run.tier.pick(8, 96);
+	// numbers of worlds (short) / plan pairs (long); each gives 2-3 runs
+	let n_short: u64 = run.tier.pick(128, 1200);
+	let n_long: u64 = run.tier.pick(24, 192);
 	let n_long_worlds: usize = run.tier.pick(1, 4);
-	let phase_deadline: f64 = run.tier.pick(70.0, 520.0);
-	let wd: u64 = run.tier.pick(400, 1500);
+	let phase_deadline: f64 = run.tier.pick(60.0, 400.0);
+	let wd: u64 = run.tier.pick(300, 900);
 
 	// long worlds are generated while the short phase runs
 	let long_ok = Mutex::new(true);
@@ -1916,8 +1936,13 @@ fn main() {
 			continue;
 		}
 		reruns += 1;
-		if reruns > 2 {
+		if reruns > 3 || run.n_violations() > 0 {
 			run.count("hangs_not_re_run", 1);
+			if let Some(f) = h["gdb_file"].as_str() {
+				if !f.is_empty() {
+					let _ = std::fs::remove_file(f);
+				}
+			}
 			continue;
 		}
 		let k = h["k"].as_u64().unwrap_or(0);
@@ -1931,10 +1956,19 @@ fn main() {
 			run.inconclusive(&format!("{} run {} made no progress for 60 s ({}) but the hang did not reproduce when re-run alone", phase, k, h));
 			run.count("hangs_not_reproduced", 1);
 		} else {
-			let ops = h2["stuck_ops"].as_array().map(|a| a.iter().filter_map(|x| x.as_str()).collect::<Vec<_>>().join("+")).unwrap_or_default();
+			let mut opsv: Vec<&str> = h2["stuck_ops"].as_array().map(|a| a.iter().filter_map(|x| x.as_str()).collect::<Vec<_>>()).unwrap_or_default();
+			opsv.dedup();
+			let ops = opsv.join("+");
+			// which bystanders are blocked behind the cycle varies from run to run: the signature names the event only,
+			// the calls the threads are stuck in and the gdb backtraces are in the description / replay file
 			run.violation(
-				&format!("C17;world={};clause=deadlock;stuck_in={}", phase, ops),
-				&format!("no thread made progress for 60 s, reproduced when the run was executed again alone; threads stuck in: {}", ops),
+				&format!("C17;world={};clause=deadlock", phase),
+				&format!(
+					"no thread made progress for 60 s, reproduced when the run was executed again alone; threads stuck in: {}; backtraces: {} / {}",
+					ops,
+					h["gdb_file"].as_str().unwrap_or("-"),
+					h2["gdb_file"].as_str().unwrap_or("-")
+				),
 				json!({"first": h, "second": h2, "reproduce": format!("c17 --tier {} --seed {} --worker 0 1 --phase {} --only-run {}", run.tier.name(), run.seed, phase, k)}),
 			);
 		}
